@@ -108,13 +108,20 @@ def build(rnd, profile, n_trees, sels_per_tree, feats=None, depth=2, ast=True, l
         prefixes = []
         if profile == 'ns':
             nsmap = rnd.choice(NSMAPS)
+            used = sorted({e.namespace for e in top.find_all(True) if getattr(e, 'namespace', None)} |
+                          {k.namespace for e in top.find_all(True) for k in e.attrs if getattr(k, 'namespace', None)})
+            if used and rnd.random() < 0.5:
+                # prefixes (of the caller's choosing) bound to namespaces that occur in this tree, elements' or attributes'
+                nsmap = {rnd.choice(['n', 'p', 'q', 'xl', 'a']) + str(i): u for i, u in enumerate(rnd.sample(used, min(3, len(used))))}
+                if rnd.random() < 0.2:
+                    nsmap[''] = rnd.choice(used)
             prefixes = [k for k in (nsmap or {}) if k] or ['a']
         for i_sel in range(sels_per_tree):
             if ast:
                 f = feats or {'core': ('core',), 'ns': ('core', 'ns'), 'case': ('core', 'case'),
                               'contains': ('core', 'contains'), 'langdir': ('core', 'lang')}.get(profile, ('core',))
                 pl = dict(pools)
-                ag = gen_selectors.AGen(rnd, prefixes=prefixes, feats=f, **pl)
+                ag = gen_selectors.AGen(rnd, prefixes=prefixes, feats=f, nsmap=nsmap, **pl)
                 s, a = ag.directed(top) if i_sel < directed else ag.selector(depth)
             else:
                 pl = dict(pools)
@@ -126,5 +133,18 @@ def build(rnd, profile, n_trees, sels_per_tree, feats=None, depth=2, ast=True, l
                 ops = [('select', (), 0)] + [('match', sc.path_of[id(e)]) for e in sc.elements]
             c = sc.add(s, ops, namespaces=nsmap, custom={':--cust': 'p, div > span'} if not ast else None)
             sc.meta[s] = a
+        if ast and sels_per_tree and ('lang' in (feats or ()) or profile == 'langdir'):
+            # two ranges aimed at this document: any language at all, and the <meta> pragma's language (the fallback
+            # must stay inside the element's own document)
+            metas = [m.get('content') for m in top.find_all('meta') if isinstance(m.get('content'), str) and m.get('content')]
+            for r_ in ['*', rnd.choice(metas) if metas else rnd.choice(pools.get('langs') or ['en'])]:
+                cp = {'ids': [], 'classes': [], 'attrs': [], 'pseudos': [('lang', [r_.split('-')[0] if rnd.random() < 0.5 else r_])]}
+                if rnd.random() < 0.3:
+                    cp['type'] = (None, 'p')
+                a = [[cp]]
+                s = gen_selectors.show_list(a)
+                ops = [('select', (), 0)] + [('match', sc.path_of[id(e)]) for e in sc.elements] if all_match else std_ops(rnd, sc, light)
+                sc.add(s, ops, namespaces=nsmap)
+                sc.meta[s] = a
         out.append(sc)
     return out
